@@ -28,22 +28,27 @@
 (***************************************************************************)
 EXTENDS Naturals, Integers, Sequences, FiniteSets
 
-CONSTANT Lattice   \* "full" | "chain" | "multi": which part of the class lattice is in play
+CONSTANT Lattice   \* "full" | "chain" | "multi" | "diamond": which part of the class lattice is in play
 
-\* class A; class B(A); class C(B); class M; class D(B, M)   (object omitted)
-Classes == CASE Lattice = "full" -> {"A", "B", "C", "M", "D"}
+\* class A; class B(A); class C(B); class M; class D(B, M); class E(A); class F(B, E)   (object omitted)
+\* F closes a diamond over A: its MRO (C3 linearisation) is F, B, E, A - a depth-first walk of the bases
+\* would meet A before E
+Classes == CASE Lattice = "full" -> {"A", "B", "C", "M", "D", "E", "F"}
              [] Lattice = "chain" -> {"A", "B", "C"}
              [] Lattice = "multi" -> {"B", "M", "D"}
+             [] Lattice = "diamond" -> {"A", "B", "E", "F"}
 FullMro(c) == CASE c = "A" -> <<"A">>
                 [] c = "B" -> <<"B", "A">>
                 [] c = "C" -> <<"C", "B", "A">>
                 [] c = "M" -> <<"M">>
                 [] c = "D" -> <<"D", "B", "A", "M">>
+                [] c = "E" -> <<"E", "A">>
+                [] c = "F" -> <<"F", "B", "E", "A">>
 Mro == [c \in Classes |-> SelectSeq(FullMro(c), LAMBDA k : k \in Classes)]
 
 Preds == {"q1", "q2"}
 \* q1 = isinstance(x, A), q2 = isinstance(x, M)
-PredDom == [q \in Preds |-> IF q = "q1" THEN {"A", "B", "C", "D"} \cap Classes ELSE {"M", "D"} \cap Classes]
+PredDom == [q \in Preds |-> IF q = "q1" THEN {"A", "B", "C", "D", "E", "F"} \cap Classes ELSE {"M", "D"} \cap Classes]
 
 REPR == 0        \* printer id 0 = default repr / "absent"
 
